@@ -21,6 +21,12 @@ Definition tblock_eqb (a b : tblock) : bool :=
   let '(s1, n1, f1) := a in let '(s2, n2, f2) := b in N.eqb s1 s2 && N.eqb n1 n2 && Bool.eqb f1 f2.
 Definition sid_eqb (a b : sid) : bool := N.eqb (fst a) (fst b) && N.eqb (snd a) (snd b).
 
+Definition tentry_eqb (a b : tentry) : bool :=
+  N.eqb (te_tid a) (te_tid b) && N.eqb (te_cnt a) (te_cnt b) && N.eqb (te_sidx a) (te_sidx b)
+  && N.eqb (te_blk a) (te_blk b).
+Fixpoint N_seq (start : N) (len : nat) : list N :=
+  match len with 0 => [] | S k => start :: N_seq (start + 1) k end.
+
 (* one read of a posting list: tid, [lo,hi], direction, what the real iterator returned *)
 Record query := mkQ { q_tid : N; q_lo : N; q_hi : N; q_asc : bool; q_impl : res (list N) }.
 
@@ -42,6 +48,11 @@ Inductive case :=
    real DocsReader from the active resp. rewritten file; truth = the document stored for that ID *)
 | CDocs (bsz : N) (lens : list N) (pa : list (sid * N)) (oa : list N) (fa : dfile) (ids : list sid)
         (pn : list (sid * N)) (on : list N) (got_a got_s : list (option doc)) (truth : list doc)
+(* real writeTokensBlocks + writeTokenTableBlocks into an index file, real TableLoader / BlockLoader:
+   fields = byte lengths of the tokens per field (dictionary order); pre / loaded = table entries
+   (StartTID, ValCount, StartIndex, BlockIndex) kept by sealing / read from the file; vals_* = for every TID
+   1..N the token found by GetEntryByTID + GetValByTID, as its TID (None = panic or nothing) *)
+| CTokTab (fields : list (list N)) (pre loaded : list tentry) (vals_pre vals_loaded : list (option N))
 (* one request sent to the three forms of one fraction + brute-force oracle; canonical answers *)
 | CForm (kind : N) (active sealed reloaded oracle : list N).
 
@@ -67,6 +78,15 @@ Definition case_agrees (c : case) : bool :=
   | CIds size ids impl mins =>
       option_eqb (list_eqb (list_eqb sid_eqb)) (id_blocks size ids) impl
       && match impl with Some bs => list_eqb sid_eqb (min_ids bs) mins | None => true end
+  | CTokTab fields pre loaded vals_pre vals_loaded =>
+      match tok_table fields with
+      | Ok (es, bl) =>
+          let n := length (concat fields) in
+          list_eqb tentry_eqb es pre && list_eqb tentry_eqb es loaded
+          && list_eqb (option_eqb N.eqb) (map (val_of_tid es bl) (N_seq 1 n)) vals_pre
+          && list_eqb (option_eqb N.eqb) (map (val_of_tid es bl) (N_seq 1 n)) vals_loaded
+      | _ => false
+      end
   | CDocs bsz lens pa oa fa ids pn on got_a got_s _ =>
       match write_sorted bsz lens pa oa fa ids with
       | Ok (pm, om, fm) =>
@@ -108,8 +128,6 @@ Fixpoint field_starts (cur : N) (fields : list (N * N)) : list N :=
   | [] => []
   | (_, n) :: r => (if (n =? 0)%N then [] else [cur]) ++ field_starts (cur + n) r
   end.
-Fixpoint N_seq (start : N) (len : nat) : list N :=
-  match len with 0 => [] | S k => start :: N_seq (start + 1) k end.
 Definition total_tokens (fields : list (N * N)) : N := fold_left (fun a f => (a + snd f)%N) fields 0%N.
 
 Definition all_eq4 (a s r o : list N) : bool := lN_eqb a s && lN_eqb s r && lN_eqb a o.
@@ -149,6 +167,10 @@ Definition case_spec_ok (c : case) : bool :=
           && list_eqb sid_eqb mins (map (fun b => last b sid0) bs)
       | None => false
       end
+  | CTokTab fields _ _ vals_pre vals_loaded =>
+      (* every TID maps back to its own token, over the preloaded and over the loaded table *)
+      let want := map Some (N_seq 1 (length (concat fields))) in
+      list_eqb (option_eqb N.eqb) vals_pre want && list_eqb (option_eqb N.eqb) vals_loaded want
   | CDocs _ _ _ _ _ ids _ _ got_a got_s truth =>
       (* every stored ID (the zero ID cannot be stored) reads the same document from both files *)
       (length got_a =? length ids) && (length got_s =? length ids) && (length truth =? length ids)
